@@ -650,14 +650,14 @@ func OpenFile(p string, flag int, perm FileMode) (*File, error) {
 			ino = &inode{mtime: now(), nlink: 1}
 			f.files[p] = ino
 			f.created++
+			// Creation moves the logical clock of instrumented code by 1µs: kevo
+			// derives file names from time.Now().UnixNano() and a frozen virtual
+			// clock would make two creations collide (simulator artefact).
+			simrt.AdvanceSkew(time.Microsecond)
 		}
 		if err = f.finish(op, err); err != nil {
 			return nil, perr("open", p, err)
 		}
-		// Creation moves the logical clock of instrumented code by 1µs: kevo
-		// derives file names from time.Now().UnixNano() and a frozen virtual
-		// clock would make two creations collide (simulator artefact).
-		simrt.AdvanceSkew(time.Microsecond)
 	} else if flag&O_TRUNC != 0 && len(ino.data) > 0 {
 		op := &Op{Kind: OpTruncate, Path: p}
 		apply, _, err := f.point(op)
